@@ -90,6 +90,306 @@ theorem C01_generate_history (H : List α → δ) (L cap : Nat) (hL : 0 < L) (fi
       congr 1
       exact ih _ h1 (by rw [h2]; exact hlen) hk
 
+/-- **One run, code as it is (no memo).**  In any well-formed world, with any other streams and
+    any memo slot, the run is the specification's function of the Torrent's current metainfo and
+    the current bytes; the world and the Torrent object are unchanged. -/
+theorem C01_generate_one_run_current_metainfo (fp : Meta → List Nat) (H : List α → δ) (cap : Nat) (w : World α) (t : Tor)
+    (hL : 0 < t.info.L) :
+    genM false fp H cap w t = (specGen H t.info w.cur, w, t) := by
+  unfold genM specGen filesOf
+  simp only [Bool.false_eq_true, ↓reduceIte]
+  -- the size checks in terms of the current contents
+  simp only [sizeOnDisk_eq_cur]
+  by_cases hall : (t.info.files.all fun e => (w.cur[e.path]?).map List.length == some e.length) = true
+  · -- every listed file exists with the listed size
+    have hmem : ∀ e ∈ t.info.files, (w.cur[e.path]?).map List.length = some e.length := by
+      intro e he
+      have := List.all_eq_true.1 hall e he
+      simpa using this
+    have hex : (t.info.files.all fun e => ((w.cur[e.path]?).map List.length).isSome) = true := by
+      rw [List.all_eq_true]
+      intro e he
+      rw [hmem e he]; rfl
+    have hsum : (t.info.files.map fun e => ((w.cur[e.path]?).map List.length).getD 0).sum =
+        (t.info.files.map (·.length)).sum :=
+      sum_map_congr _ _ _ (fun e he => by rw [hmem e he]; rfl)
+    simp only [hex, Bool.not_true, Bool.false_or, hsum, hall, Bool.true_and, Bool.not_true,
+      Bool.false_eq_true, ↓reduceIte, decide_eq_true_eq]
+    by_cases hpos : 1 ≤ (t.info.files.map (·.length)).sum
+    · have hnlt : ¬ (t.info.files.map (·.length)).sum < 1 := by omega
+      simp only [hnlt, ↓reduceIte, hpos, readPaths_private]
+      -- what the private stream read
+      have hlt : ∀ e ∈ t.info.files, e.path < w.dir.length := by
+        intro e he
+        have h1 := hmem e he
+        rcases Nat.lt_or_ge e.path w.dir.length with h | h
+        · exact h
+        · have : w.cur[e.path]? = none := by
+            apply List.getElem?_eq_none
+            simpa [World.cur] using h
+          rw [this] at h1; simp at h1
+      have hcont : (t.info.files.map (·.path)).map (fun j => w.inodes.getD (w.dir.getD j 0) []) =
+          t.info.files.map fun e => w.cur.getD e.path [] := by
+        rw [List.map_map]
+        apply List.map_congr_left
+        intro e he
+        have h := hlt e he
+        simp [World.cur, List.getD_eq_getElem?_getD, List.getElem?_eq_getElem h]
+      rw [hcont]
+      -- the listed sizes are the sizes read
+      have hlen : (t.info.files.map fun e => w.cur.getD e.path []).map List.length =
+          t.info.files.map (·.length) := by
+        rw [List.map_map]
+        apply List.map_congr_left
+        intro e he
+        have h1 := hmem e he
+        have h := hlt e he
+        have hc : e.path < w.cur.length := by simpa [World.cur] using h
+        rw [List.getElem?_eq_getElem hc] at h1
+        simp only [Option.map_some, Option.some.injEq] at h1
+        simp [List.getD_eq_getElem?_getD, List.getElem?_eq_getElem hc, h1]
+      have hne : 0 < ((t.info.files.map fun e => w.cur.getD e.path []).map List.length).sum := by
+        rw [hlen]; omega
+      have hspec := C01_generate_spec H t.info.L hL
+        (t.info.files.map fun e => w.cur.getD e.path []) hne _ (List.Perm.refl _)
+      unfold Generate.run at hspec
+      rw [hlen] at hspec
+      rw [hspec, List.flatMap_def]
+    · have hlt1 : (t.info.files.map (·.length)).sum < 1 := by omega
+      simp [hlt1, hpos]
+  · -- some listed file is missing or has another size: the run fails (in either check)
+    have hall' : (t.info.files.all fun e => (w.cur[e.path]?).map List.length == some e.length) = false := by
+      simpa using hall
+    simp only [hall', Bool.false_and, Bool.false_eq_true, ↓reduceIte, Bool.not_false]
+    split <;> rfl
+
+/-- **History independence on the metainfo side.**  Any number of Torrent objects over one content
+    directory; the process edits their metainfo between runs in any way (in place or not: re-order,
+    swap, edit a path or a length, replace the list, change the piece length, the name, `copy()`),
+    calls getters, creates / replaces / rewrites files (any size), opens and closes other streams,
+    and runs `generate()` on any object any number of times.  Every run is the specification's
+    function of *that object's metainfo at that moment* and *the bytes on disk at that moment*:
+    True with the SHA-1 (`H`) of the chunks of the listed files in list order at the listed piece
+    length when disk and metainfo agree, a failure that stores nothing when they do not.  The
+    specification's state has no handles, inodes, list identities or remembered file lists. -/
+theorem C01_generate_reads_current_metainfo (fp : Meta → List Nat) (H : List α → δ) (cap : Nat)
+    (files₀ : List (List α)) (metas₀ : List Meta) (ops : List (MOp α))
+    (hL : metasOk metas₀ ops = true) :
+    runHistM false fp H cap (MWorld.init files₀ metas₀) ops = specHistM H metas₀ files₀ ops := by
+  suffices ∀ (ops : List (MOp α)) (w : MWorld α), WF w.disk →
+      metasOk (infos w.tors) ops = true →
+      runHistM false fp H cap w ops = specHistM H (infos w.tors) w.disk.cur ops by
+    have h := this ops (MWorld.init files₀ metas₀) (WF.init files₀)
+      (by simp only [MWorld.init, infos_init]; exact hL)
+    simp only [MWorld.init, infos_init, cur_init] at h
+    exact h
+  intro ops
+  induction ops with
+  | nil => intro w _ _; rfl
+  | cons op ops ih =>
+    intro w hw hk
+    unfold runHistM
+    cases op with
+    | disk dop =>
+      obtain ⟨h1, h2⟩ := diskStep_private cap hw dop
+      simp only [mstep]
+      simp only [metasOk] at hk
+      have h3 := ih { w with disk := diskStep cap w.disk dop } h1 hk
+      simp only at h3
+      rw [h3, h2]
+      cases dop <;> simp only [specHistM]
+    | create b =>
+      simp only [mstep, specHistM]
+      simp only [metasOk] at hk
+      have h3 := ih { w with disk := { w.disk with inodes := w.disk.inodes ++ [b],
+                                                   dir := w.disk.dir ++ [w.disk.inodes.length] } }
+        (hw.create b) hk
+      simp only at h3
+      rw [h3, cur_create hw b]
+    | setMeta k m =>
+      simp only [mstep, specHistM]
+      simp only [metasOk, Bool.and_eq_true, decide_eq_true_eq] at hk
+      have h3 := ih { w with tors := modifyTor w.tors k fun t => { t with info := m } } hw
+        (by simp only [infos_setMeta]; exact metasOk_set _ _ _ _ hk.1 hk.2)
+      simp only [infos_setMeta] at h3
+      exact h3
+    | newTor m =>
+      simp only [mstep, specHistM]
+      simp only [metasOk, Bool.and_eq_true, decide_eq_true_eq] at hk
+      have h3 := ih { w with tors := w.tors ++ [{ info := m }] } hw
+        (by simp only [infos_append]; exact metasOk_append _ _ _ hk.1 hk.2)
+      simp only [infos_append] at h3
+      exact h3
+    | get k =>
+      simp only [mstep, specHistM, tors_get_same]
+      simp only [metasOk] at hk
+      exact ih w hw hk
+    | generate k =>
+      simp only [metasOk] at hk
+      simp only [mstep, specHistM, infos_getElem?]
+      cases hk' : w.tors[k]? with
+      | none =>
+        simp only [Option.map_none]
+        rw [ih w hw hk]
+      | some t =>
+        have hLt : 0 < t.info.L := metasOk_pos _ _ hk t.info
+          (List.mem_map.2 ⟨t, List.mem_of_getElem? hk', rfl⟩)
+        simp only [Option.map_some, C01_generate_one_run_current_metainfo fp H cap w.disk t hLt,
+          set_of_getElem? hk']
+        rw [ih w hw hk]
+
+/-- The variant whose `Torrent.files` keeps the tuple it built under the cheap fingerprint
+    (name, id of the list object, length of the list) is not a function of the current metainfo:
+    read `files`, reverse `info['files']` in place, `generate()` — the digests follow the old
+    order.  (Model-level image of the seeded change C01/b of round 3.) -/
+def C01_memo_files_full : Prop :=
+  ∀ (cap : Nat) (files₀ : List (List Nat)) (metas₀ : List Meta) (ops : List (MOp Nat)),
+    metasOk metas₀ ops = true →
+    runHistM true fpSeed (fun p => p) cap (MWorld.init files₀ metas₀) ops =
+      specHistM (fun p => p) metas₀ files₀ ops
+
+theorem C01_memo_files_counterexample : ¬ C01_memo_files_full := by
+  intro h
+  have h0 := h 10 [[1, 2, 3], [4, 5]]
+    [{ L := 2, files := [⟨0, 3⟩, ⟨1, 2⟩], listId := 7 }]
+    [.get 0, .setMeta 0 { L := 2, files := [⟨1, 2⟩, ⟨0, 3⟩], listId := 7 }, .generate 0] (by decide)
+  -- the memoised tuple still lists file 0 first
+  have h1 : runHistM true fpSeed (fun p : List Nat => p) 10
+      (MWorld.init [[1, 2, 3], [4, 5]] [{ L := 2, files := [⟨0, 3⟩, ⟨1, 2⟩], listId := 7 }])
+      [.get 0, .setMeta 0 { L := 2, files := [⟨1, 2⟩, ⟨0, 3⟩], listId := 7 }, .generate 0] =
+      [.out (seq (fun p : List Nat => p) 2 [[1, 2, 3], [4, 5]])] := by rfl
+  have h2 : specHistM (fun p : List Nat => p) [{ L := 2, files := [⟨0, 3⟩, ⟨1, 2⟩], listId := 7 }]
+      [[1, 2, 3], [4, 5]]
+      [.get 0, .setMeta 0 { L := 2, files := [⟨1, 2⟩, ⟨0, 3⟩], listId := 7 }, .generate 0] =
+      [.out (.stored ((chunks 2 [[4, 5], [1, 2, 3]].flatten).map fun p => p))] := by rfl
+  have h3 := C01_generate_spec (fun p : List Nat => p) 2 (by decide) [[1, 2, 3], [4, 5]] (by decide) _
+    (List.Perm.refl _)
+  rw [h1, h2] at h0
+  have h4 := Res.out.inj (List.head_eq_of_cons_eq h0)
+  unfold seq at h4
+  rw [h3] at h4
+  have h5 := Outcome.stored.inj h4
+  simp only [List.map_id'] at h5
+  rw [← C01_iter_eq_chunks 2 (by decide), ← C01_iter_eq_chunks 2 (by decide)] at h5
+  revert h5
+  decide
+
+/-- A memoising `Torrent.files` is harmless exactly when its key is faithful: if the fingerprint
+    determines the file list (`fp m = fp m' → m.files = m'.files`), every history still meets the
+    specification.  (The seeded key (name, id of the list, length of the list) is not faithful,
+    nor is the id alone, nor the paths without the lengths.) -/
+theorem C01_memo_files_faithful (fp : Meta → List Nat)
+    (hfp : ∀ m m' : Meta, fp m = fp m' → m.files = m'.files) (H : List α → δ) (cap : Nat)
+    (files₀ : List (List α)) (metas₀ : List Meta) (ops : List (MOp α))
+    (hL : metasOk metas₀ ops = true) :
+    runHistM true fp H cap (MWorld.init files₀ metas₀) ops = specHistM H metas₀ files₀ ops := by
+  suffices ∀ (ops : List (MOp α)) (w : MWorld α), WF w.disk → (∀ t ∈ w.tors, MemoOk fp t) →
+      metasOk (infos w.tors) ops = true →
+      runHistM true fp H cap w ops = specHistM H (infos w.tors) w.disk.cur ops by
+    have h := this ops (MWorld.init files₀ metas₀) (WF.init files₀)
+      (by
+        intro t ht f es hm
+        simp only [MWorld.init, List.mem_map] at ht
+        obtain ⟨m, _, rfl⟩ := ht
+        simp at hm)
+      (by simp only [MWorld.init, infos_init]; exact hL)
+    simp only [MWorld.init, infos_init, cur_init] at h
+    exact h
+  intro ops
+  induction ops with
+  | nil => intro w _ _ _; rfl
+  | cons op ops ih =>
+    intro w hw hmemo hk
+    unfold runHistM
+    cases op with
+    | disk dop =>
+      obtain ⟨h1, h2⟩ := diskStep_private cap hw dop
+      simp only [mstep]
+      simp only [metasOk] at hk
+      have h3 := ih { w with disk := diskStep cap w.disk dop } h1 hmemo hk
+      simp only at h3
+      rw [h3, h2]
+      cases dop <;> simp only [specHistM]
+    | create b =>
+      simp only [mstep, specHistM]
+      simp only [metasOk] at hk
+      have h3 := ih { w with disk := { w.disk with inodes := w.disk.inodes ++ [b],
+                                                   dir := w.disk.dir ++ [w.disk.inodes.length] } }
+        (hw.create b) hmemo hk
+      simp only at h3
+      rw [h3, cur_create hw b]
+    | setMeta k m =>
+      simp only [mstep, specHistM]
+      simp only [metasOk, Bool.and_eq_true, decide_eq_true_eq] at hk
+      have h3 := ih { w with tors := modifyTor w.tors k fun t => { t with info := m } } hw
+        (by
+          intro x hx
+          rcases mem_modifyTor hx with h | ⟨t, ht, rfl⟩
+          · exact hmemo x h
+          · exact hmemo t ht)
+        (by simp only [infos_setMeta]; exact metasOk_set _ _ _ _ hk.1 hk.2)
+      simp only [infos_setMeta] at h3
+      exact h3
+    | newTor m =>
+      simp only [mstep, specHistM]
+      simp only [metasOk, Bool.and_eq_true, decide_eq_true_eq] at hk
+      have h3 := ih { w with tors := w.tors ++ [{ info := m }] } hw
+        (by
+          intro x hx
+          rcases List.mem_append.1 hx with h | h
+          · exact hmemo x h
+          · simp only [List.mem_singleton] at h; subst h
+            intro f es hm; simp at hm)
+        (by simp only [infos_append]; exact metasOk_append _ _ _ hk.1 hk.2)
+      simp only [infos_append] at h3
+      exact h3
+    | get k =>
+      simp only [mstep, specHistM]
+      simp only [metasOk] at hk
+      have hinfo : infos (modifyTor w.tors k fun t => (filesOf true fp t).2) = infos w.tors := by
+        unfold infos modifyTor
+        cases hk' : w.tors[k]? with
+        | none => rfl
+        | some t =>
+          simp only [List.map_set, (filesOf_memo hfp (hmemo t (List.mem_of_getElem? hk'))).2.1]
+          exact set_of_getElem? (by simp [hk'])
+      have h3 := ih { w with tors := modifyTor w.tors k fun t => (filesOf true fp t).2 } hw
+        (by
+          intro x hx
+          rcases mem_modifyTor hx with h | ⟨t, ht, rfl⟩
+          · exact hmemo x h
+          · exact (filesOf_memo hfp (hmemo t ht)).2.2)
+        (by rw [hinfo]; exact hk)
+      rw [hinfo] at h3
+      exact h3
+    | generate k =>
+      simp only [metasOk] at hk
+      simp only [mstep, specHistM, infos_getElem?]
+      cases hk' : w.tors[k]? with
+      | none =>
+        simp only [Option.map_none]
+        rw [ih w hw hmemo hk]
+      | some t =>
+        have htm := hmemo t (List.mem_of_getElem? hk')
+        obtain ⟨hf1, hf2, hf3⟩ := filesOf_memo hfp htm
+        have hLt : 0 < t.info.L := metasOk_pos _ _ hk t.info
+          (List.mem_map.2 ⟨t, List.mem_of_getElem? hk', rfl⟩)
+        simp only [Option.map_some, genM_memo fp H cap w.disk t hf1,
+          C01_generate_one_run_current_metainfo fp H cap w.disk t hLt]
+        have hinfo : infos (w.tors.set k (filesOf true fp t).2) = infos w.tors := by
+          unfold infos
+          rw [List.map_set, hf2]
+          exact set_of_getElem? (by simp [hk'])
+        have h3 := ih { disk := w.disk, tors := w.tors.set k (filesOf true fp t).2 } hw
+          (by
+            intro x hx
+            rcases List.mem_or_eq_of_mem_set hx with h | h
+            · exact hmemo x h
+            · subst h; exact hf3)
+          (by rw [hinfo]; exact hk)
+        rw [hinfo] at h3
+        rw [h3]
+
 /-- The variant with ONE class-level handle table for all streams is not history independent:
     another stream opens file 0, the file is replaced atomically, `generate()` hashes the bytes
     of the old inode.  (Model-level image of the seeded change C01/a of round 2.) -/
